@@ -279,6 +279,105 @@ pub fn c11(out: &mut Out, thorough: bool) {
     }
 }
 
+
+/// one-off corpus builder (run on the tree the corpus is committed for, not during a check):
+/// `harness gen-epreply <n> <seed> <outfile>` searches for positions in which a double pawn step gives check
+/// and the ONLY legal replies are en-passant captures of that pawn, and which hold no mate in one; the positions
+/// (before the push, both colours) are written as FEN.  During a check they are read from the corpus file, so
+/// the stream does not depend on what the implementation under test generates.
+pub fn gen_ep_only_reply(n: usize, seed: u64, path: &str) {
+    use chess_movegen::GameState;
+    let mut rng = Rng::new(seed ^ 0xE9);
+    let mut found: Vec<String> = Vec::new();
+    let mut after: Vec<String> = Vec::new();
+    let mut tries = 0u64;
+    while found.len() < n && tries < 400_000_000 {
+        tries += 1;
+        let mut sq = [b'.'; 64];
+        let kf = rng.below(8) as i32;
+        let pf = kf + if rng.chance(1, 2) { 1 } else { -1 };
+        if !(0..8).contains(&pf) {
+            continue;
+        }
+        let qf = pf + if rng.chance(1, 2) { 1 } else { -1 };
+        if !(0..8).contains(&qf) || (qf == kf) {
+            // the capturing pawn stands beside the landing square, not under its own king
+        }
+        if !(0..8).contains(&qf) {
+            continue;
+        }
+        let at = |f: i32, r: i32| (r * 8 + f) as usize;
+        sq[at(kf, 4)] = b'k';
+        sq[at(pf, 1)] = b'P';
+        if sq[at(qf, 3)] != b'.' {
+            continue;
+        }
+        sq[at(qf, 3)] = b'p';
+        // white king and two to five more white men, up to two more black men
+        let mut place = |sq: &mut [u8; 64], rng: &mut Rng, c: u8| {
+            for _ in 0..20 {
+                let i = rng.below(64) as usize;
+                if sq[i] == b'.' && i != at(pf, 2) && i != at(pf, 3) && !((c == b'P' || c == b'p') && (i / 8 == 0 || i / 8 == 7)) {
+                    sq[i] = c;
+                    return;
+                }
+            }
+        };
+        place(&mut sq, &mut rng, b'K');
+        for _ in 0..(2 + rng.below(4)) {
+            let c = *rng.pick(&b"QRRBBNNPP"[..]);
+            place(&mut sq, &mut rng, c);
+        }
+        for _ in 0..rng.below(3) {
+            let c = *rng.pick(&b"ppnb"[..]);
+            place(&mut sq, &mut rng, c);
+        }
+        let fen = fen_of(&sq, true, 0, None, rng.below(40) as u32, 1 + rng.below(60) as u32);
+        let Ok(b) = chess_movegen::fen::parse_fen(fen.as_bytes()) else { continue };
+        let push = b.legals().find(|m| m.source.to_u8() as usize == at(pf, 1) && m.dest.to_u8() as usize == at(pf, 3));
+        let Some(push) = push else { continue };
+        let Some(nb) = b.move_new(push) else { continue };
+        if !nb.in_check() {
+            continue;
+        }
+        let replies: Vec<ChessMove> = nb.legals().collect();
+        if replies.is_empty() {
+            continue;
+        }
+        let all_ep = replies.iter().all(|m| m.dest.to_u8() as usize == at(pf, 2) && nb.raw().get(m.source).map(|x| x.1) == Some(chess_bitboard::Piece::Pawn) && nb.raw().get(m.dest).is_none());
+        if !all_ep {
+            continue;
+        }
+        let has_mate = b.legals().any(|m| b.move_new(m).map(|x| x.state() == GameState::CheckMate).unwrap_or(false));
+        if has_mate {
+            continue;
+        }
+        found.push(fen.clone());
+        after.push(fen_of_view(&view(&nb)));
+        if let Some(mb) = mirror_view(&view(&b)) {
+            found.push(fen_of_view(&view(&mb)));
+        }
+        if let Some(mb) = mirror_view(&view(&nb)) {
+            after.push(fen_of_view(&view(&mb)));
+        }
+    }
+    let mut text = String::from("# positions in which a double pawn step gives check and the only legal replies are en-passant captures of that pawn;\n# no mate in one exists (found by `harness gen-epreply`, see harness/src/engine.rs)\n");
+    for f in &found {
+        text.push_str(f);
+        text.push('\n');
+    }
+    std::fs::write(path, text).unwrap();
+    std::fs::write(format!("{path}.after"), after.join("\n") + "\n").unwrap();
+    eprintln!("{} positions after {} tries", found.len(), tries);
+}
+
+pub fn load_ep_only_reply() -> Vec<String> {
+    let path = concat!(env!("CARGO_MANIFEST_DIR"), "/../corpus/ep_only_reply.txt");
+    std::fs::read_to_string(path)
+        .map(|s| s.lines().map(|l| l.trim().to_string()).filter(|l| !l.is_empty() && !l.starts_with('#')).collect())
+        .unwrap_or_default()
+}
+
 pub fn c12(out: &mut Out, thorough: bool) {
     let mut rng = Rng::new(out.seed ^ 0xC12);
     let mut ps: Vec<Tagged> = Vec::new();
@@ -295,6 +394,15 @@ pub fn c12(out: &mut Out, thorough: bool) {
         } else if plain < (if thorough { 1000 } else { 60 }) {
             plain += 1;
             ps.push(t);
+        }
+    }
+    // a check by a double pawn step that only an en-passant capture answers is not mate (fixed corpus; the
+    // stream must not depend on what the implementation under test believes to be mate)
+    let eps = load_ep_only_reply();
+    let take = if thorough { eps.len() } else { eps.len().min(80) };
+    for f in eps.iter().take(take) {
+        if let Some(b) = crate::common::guard(|| chess_movegen::fen::parse_fen(f.as_bytes()).ok()).flatten() {
+            ps.push(Tagged { board: b, tag: "check-answered-only-en-passant" });
         }
     }
     for t in ps.iter() {
